@@ -403,7 +403,7 @@ func (m *MonC20) checkCancelSpot(ctx sdk.Context, t *ExecTx, pre *c20Pre, post o
 	if _, still := post.spot[id]; still {
 		s.Violate("C20", "cancel_left_order", step, "spot order %d still pending after a successful cancel by its owner", id)
 	}
-	if bal := s.N0.App.BankKeeper.GetAllBalances(ctx, ord.GetOrderAddress()); !bal.IsZero() {
+	if bal := s.N0.App.BankKeeper.SpendableCoins(ctx, ord.GetOrderAddress()); !bal.IsZero() { // spendable: a locked unit parked there by a stranger is not escrow
 		s.Violate("C20", "cancel_left_escrow", step, "spot order %d: %s left in escrow after cancel", id, bal)
 	}
 	s.Stats.Probe("order_cancel_checked")
@@ -425,7 +425,7 @@ func (m *MonC20) checkCancelPerp(ctx sdk.Context, t *ExecTx, pre *c20Pre, post o
 	if _, still := post.perp[id]; still {
 		s.Violate("C20", "cancel_left_order", step, "perpetual order %d still pending after a successful cancel by its owner", id)
 	}
-	if bal := s.N0.App.BankKeeper.GetAllBalances(ctx, ord.GetOrderAddress()); !bal.IsZero() {
+	if bal := s.N0.App.BankKeeper.SpendableCoins(ctx, ord.GetOrderAddress()); !bal.IsZero() { // spendable: a locked unit parked there by a stranger is not escrow
 		s.Violate("C20", "cancel_left_escrow", step, "perpetual order %d: %s left in escrow after cancel", id, bal)
 	}
 	s.Stats.Probe("order_cancel_checked")
